@@ -592,14 +592,17 @@ class PdoVariable(variable.Variable):
                 # A boolean type needs to be treated as an U08
                 data_type = objectdictionary.UNSIGNED8
             od_struct = self.od.STRUCT_TYPES[data_type]
-            data = od_struct.unpack_from(self.pdo_parent.data, byte_offset)[0]
-            # Shift and mask to get the correct values
-            data = (data >> bit_offset) & ((1 << self.length) - 1)
-            # Check if the variable is signed and if the data is negative prepend signedness
-            if od_struct.format.islower() and (1 << (self.length - 1)) < data:
-                # fill up the rest of the bits to get the correct signedness
-                data = data | (~((1 << self.length) - 1))
-            data = od_struct.pack(data)
+            # Shift and mask the whole message to get the bits of this variable,
+            # it may start anywhere and span more bytes than its own size
+            data = int.from_bytes(self.pdo_parent.data, "little")
+            data = (data >> self.offset) & ((1 << self.length) - 1)
+            if data_type in objectdictionary.SIGNED_TYPES and data >> (self.length - 1):
+                # The sign bit of the field is set, fill up the rest of the bits
+                data -= 1 << self.length
+            if data_type in objectdictionary.FLOAT_TYPES:
+                data = data.to_bytes(od_struct.size, "little")
+            else:
+                data = od_struct.pack(data)
         else:
             data = self.pdo_parent.data[byte_offset:byte_offset + len(self.od) // 8]
 
@@ -615,24 +618,13 @@ class PdoVariable(variable.Variable):
                      self.name, binascii.hexlify(data), self.pdo_parent.name)
 
         if bit_offset or self.length % 8:
-            cur_msg_data = self.pdo_parent.data[byte_offset:byte_offset + len(self.od) // 8]
-            # Need information of the current variable type (unsigned vs signed)
-            data_type = self.od.data_type
-            if data_type == objectdictionary.BOOLEAN:
-                # A boolean type needs to be treated as an U08
-                data_type = objectdictionary.UNSIGNED8
-            od_struct = self.od.STRUCT_TYPES[data_type]
-            cur_msg_data = od_struct.unpack(cur_msg_data)[0]
-            # data has to have the same size as old_data
-            data = od_struct.unpack(data)[0]
-            # Mask out the old data value
-            # At the end we need to mask for correct variable length (bitwise operation failure)
-            shifted = (((1 << self.length) - 1) << bit_offset) & ((1 << len(self.od)) - 1)
-            bitwise_not = (~shifted) & ((1 << len(self.od)) - 1)
-            cur_msg_data = cur_msg_data & bitwise_not
-            # Set the new data on the correct position
-            data = (data << bit_offset) | cur_msg_data
-            od_struct.pack_into(self.pdo_parent.data, byte_offset, data)
+            # The low bits of the encoded value go into the bits of this
+            # variable, all other bits of the message are kept
+            mask = (1 << self.length) - 1
+            value = int.from_bytes(data, "little") & mask
+            msg_data = int.from_bytes(self.pdo_parent.data, "little")
+            msg_data = (msg_data & ~(mask << self.offset)) | (value << self.offset)
+            self.pdo_parent.data[:] = msg_data.to_bytes(len(self.pdo_parent.data), "little")
         else:
             self.pdo_parent.data[byte_offset:byte_offset + len(data)] = data
 
